@@ -310,15 +310,21 @@ class Order:
         kind, tg = self.P.resolve(t["callee"])
         return kind == "ws" and any(g in fns for g in tg)
 
+    def failure_region(self, body, risky):
+        """blocks whose terminator can execute while the Result of a `risky` call is unchecked or failed."""
+        return self.after_failure(body, risky, None)
+
     def after_failure(self, body, risky, target):
         """target sites that can execute while the Result of a `risky` call is still unchecked or on its
-        failure edge (i.e. the target does not depend on the risky call having succeeded)."""
+        failure edge (i.e. the target does not depend on the risky call having succeeded).
+        target=None: every such block (calls, drops, returns)."""
         from program import forward, op_local
         rs = set(self.sites(body, risky))
-        ts = self.sites(body, target)
-        if not rs or not ts:
+        ts = self.sites(body, target) if target is not None else None
+        if not rs or (ts is not None and not ts):
             return []
         hit = set()
+        region = set()
 
         def transfer(b, st):
             st = set(st)
@@ -328,9 +334,19 @@ class Order:
                     ol = op_local(s[2]["ops"][0])
                     if ol in st:
                         st.add(s[1]["l"])
+                        if is_move(s[2]["ops"][0]):
+                            st.discard(ol)
+                elif s[0] == "assign" and s[2]["k"] == "agg" and s[2].get("variant") == "Err" and not s[1]["p"] \
+                        and "FAILED" in st:
+                    # the failure is packaged into a Result again (`Err(e) => return Err(..)` of a helper that
+                    # was virtually inlined): it is pending on that value, not a property of the path any more
+                    st.discard("FAILED")
+                    st.add(s[1]["l"])
             t = blk["term"]
+            if st and b not in rs:
+                region.add(b)
             if t["k"] == "call":
-                if b in ts and b not in rs and st:
+                if ts is not None and b in ts and b not in rs and st:
                     hit.add(b)
                 nm = names(t)
                 dl = t["dest"]["l"] if not t["dest"]["p"] else None
@@ -339,6 +355,10 @@ class Order:
                     if al in st and dl is not None:
                         st.discard(al)
                         st.add(dl)
+                elif any(n.endswith("FromResidual::from_residual") or "::from_residual" in n for n in nm) and \
+                        "FAILED" in st and dl is not None:
+                    st.discard("FAILED")
+                    st.add(dl)
                 elif b in rs and dl is not None and body.locals[dl]["ty"].startswith("core::result::Result<"):
                     st.add(dl)
             elif t["k"] == "switch":
@@ -362,7 +382,7 @@ class Order:
             return frozenset(st)
 
         forward(body, frozenset(), transfer, lambda a, b: a | b)
-        return sorted(hit)
+        return sorted(hit) if ts is not None else sorted(region)
 
     def can_reach(self, body, b, targets):
         """True iff some block in `targets` is reachable from the successors of b."""
@@ -586,7 +606,7 @@ class Order:
         """backward data-dependence slice of an operand (field-sensitive through tuple/struct
         aggregates and moves): -> dict(calls=callee names, params=param locals, consts=const
         names/values, locals, fields=field names projected on the way)."""
-        res = {"calls": set(), "params": set(), "consts": set(), "locals": set(), "fields": set()}
+        res = {"calls": set(), "params": set(), "consts": set(), "locals": set(), "fields": set(), "full": set()}
         work = [(op, ())]
         seen = set()
         n = 0
@@ -637,6 +657,8 @@ class Order:
                     t = d[2]
                     for nme in names(t):
                         res["calls"].add(nme)
+                    if t["callee"].get("full"):
+                        res["full"].add(t["callee"]["full"])
                     for a in t["args"]:
                         work.append((a, ()))
             # field-wise definitions (dest with projection) of the same local
@@ -652,6 +674,34 @@ class Order:
                         if "place" in st[2]:
                             work.append(({"c": st[2]["place"]}, ()))
         return res
+
+
+ORDERED_ITER = re.compile(r"alloc::collections::btree::(map|set)::(Iter|IntoIter|Keys|IntoKeys|Range|Values|IntoValues)"
+                          r"(Mut)?<(?:'_, )?([^,>]+)")
+SEQ_ITER = re.compile(r"(core::slice::iter::Iter(Mut)?|alloc::vec::into_iter::IntoIter|alloc::vec::drain::Drain)<(?:'_, )?(.+)")
+SORT_CALL = re.compile(r"core::slice::<impl \[T\]>::sort\w*|alloc::slice::<impl \[T\]>::sort\w*")
+
+
+def iteration_order(order, body, op):
+    """How the values flowing into `op` are enumerated: list of ('btree', key type) for ordered-map iteration,
+    ('sorted-seq', element type) / ('seq', element type) for slice/Vec iteration with / without a sort call in the body."""
+    sl = order.slice_back(body, op)
+    has_sort = any(t["k"] == "call" and any(SORT_CALL.fullmatch(n) for n in names(t))
+                   for t in (body.blocks[b]["term"] for b in body.reachable()))
+    out = set()
+    for full in sl["full"]:
+        if not re.search(r"Iterator>::next(_back)?$", full):
+            continue
+        m = ORDERED_ITER.search(full)
+        if m:
+            out.add(("btree", m.group(4)))
+            continue
+        m = SEQ_ITER.search(full)
+        if m:
+            out.add(("sorted-seq" if has_sort else "seq", m.group(3)))
+        else:
+            out.add(("other", full))
+    return sorted(out)
 
 
 def _pkey(e):
